@@ -79,6 +79,7 @@ def map_scenario(sc):
         p, k, seq = e['p'], e.get('k') or [], e['seq']
         if sig_late is not None and seq == sig_late and not sig_done[0] and sig_closer[0] is not None:
             lab('LClose %d' % sig_closer[0]); sig_done[0] = True
+            H.append(('ASignal', e))      # classification marker: the first evidence that the channel really is closed
         if k and k[-1] in emit_pos and emit_pos[k[-1]] == seq:
             u = k[-1]; uuid2m[u] = len(uuid2m)
             h = int(u.split('-')[1])
@@ -150,8 +151,7 @@ def map_scenario(sc):
             lab('LClose %d' % closer_of(e), 'OClosed true')
         elif p == 'router.close.signal':
             c = closer_of(e); lab('LClose %d' % c, 'OClosed false'); sig_closer[0] = c
-            H.append(('ASignal', e))
-            if sig_late is None: lab('LClose %d' % c); sig_done[0] = True
+            if sig_late is None: lab('LClose %d' % c); sig_done[0] = True; H.append(('ASignal', e))
         elif p == 'router.close.waited':
             lab(('LTimeout %d' if k[0] == 'true' else 'LWaitDone %d') % closer_of(e))
         elif p == 'router.close.closedch':
